@@ -405,6 +405,46 @@ func ruleErrMask(c *Ctx) {
 	}
 	c.Check(loadIdx >= 0 && loadIdx == firstDef && (loopAt < 0 || loadIdx < loopAt), "avx512:errmask:load", f5.File, "the accumulated mask is loaded from *error_mask before the block loop",
 		"the AVX-512 driver does not start from the caller's accumulated error mask (first write of the mask register is not `KMOVQ (error_mask), K`): each kernel call forgets control characters found by earlier calls", "a raw control byte inside a string in a block handled by an earlier kernel call than the last (document length % 64 != 0)")
+	// between the load and the write-back nothing but the accumulating KORQ writes the mask register — neither the
+	// driver itself nor any routine it calls after the load (an init routine that "starts from a clean mask" behind
+	// a hoisted load wipes what earlier kernel calls found)
+	{
+		clobber := ""
+		accum := func(in AsmInstr) bool {
+			return in.Op == "KORQ" && len(in.Args) == 3 && (strings.TrimSpace(in.Args[0]) == kerr || strings.TrimSpace(in.Args[1]) == kerr)
+		}
+		writes := func(in AsmInstr) bool {
+			return in.Label == "" && strings.HasPrefix(in.Op, "K") && len(in.Args) >= 2 && strings.TrimSpace(in.Args[len(in.Args)-1]) == kerr
+		}
+		seenFn := map[string]bool{}
+		var scan func(name string, from int)
+		scan = func(name string, from int) {
+			f := a.Funcs[name]
+			if f == nil || seenFn[name] && from == 0 {
+				return
+			}
+			if from == 0 {
+				seenFn[name] = true
+			}
+			for i := from; i < len(f.Instrs); i++ {
+				in := f.Instrs[i]
+				if writes(in) && !accum(in) && clobber == "" {
+					clobber = name + ": " + in.String()
+				}
+				if in.Label == "" && (in.Op == "CALL" || in.Op == "JMP") && len(in.Args) == 1 && strings.Contains(in.Args[0], "(SB)") {
+					t := strings.TrimSpace(in.Args[0])
+					t = strings.TrimPrefix(t, "·")
+					t = strings.TrimSuffix(t, "(SB)")
+					scan(t, 0)
+				}
+			}
+		}
+		if loadIdx >= 0 {
+			scan("_find_structural_bits_in_slice_avx512", loadIdx+1)
+		}
+		c.Check(loadIdx >= 0 && clobber == "" && len(seenFn) >= 4, "avx512:errmask:preserved", f5.File, fmt.Sprintf("after the load only the accumulating KORQ writes the mask register (driver and %d routines it calls)", len(seenFn)),
+			"the accumulated error mask is overwritten after it was loaded ("+clobber+"): control characters found by earlier kernel calls are forgotten", "a raw control byte inside a string in a block handled by an earlier kernel call than the last (document length % 64 != 0, or more than one index buffer)")
+	}
 	// exit: every path to RET stores the mask back
 	okStore := asmAllPathsPass(f5, func(in AsmInstr) bool {
 		return in.Op == "KMOVQ" && len(in.Args) == 2 && strings.TrimSpace(in.Args[0]) == kerr && strings.HasPrefix(strings.TrimSpace(in.Args[1]), "(")
